@@ -261,7 +261,7 @@ def minimize(
         nonlocal res  # To use the external res and update side effect
         res = spopt.minimize(
             min_func,
-            x0=x0,
+            x0=np.asarray(x0, dtype=float),  # some methods require (or iterate in) the dtype of x0
             args=args,
             jac=jac,
             method=method,
